@@ -574,6 +574,39 @@ def impl_query(model, q, state=None):
         return ['Rej', classify_exc(e)]
 
 
+# ---- optional state fields: AircraftState.true_airspeed / rate_of_climb are not inputs of a table model ----
+OPT_ROC = (None, 0.0, 2.5, -4.0, 1e-3)
+OPT_TAS = (None, 200.0)
+OPT_MAX = 24        # queries per table re-evaluated with the optional fields set (x 9 field combinations)
+
+
+def impl_optional(model, queries):
+    """Re-evaluate a deterministic sample of the metre-altitude queries (every phase) with the OPTIONAL state fields
+    set; entries [query index, rate_of_climb, true_airspeed, result, state-after].  A single query (replay) is
+    always in the sample."""
+    from AEIC.performance.types import AircraftState
+    idx = [k for k, q in enumerate(queries) if not q['d']]
+    if len(idx) > OPT_MAX:
+        # spread over phases and tags: the out-of-envelope and symbolic-mass queries first, then a stride
+        pri = [k for k in idx if queries[k]['tag'] in ('out-mass', 'out-fl', 'sym-min', 'out-phase-in-table')]
+        rest = [k for k in idx if k not in pri]
+        room = max(OPT_MAX - len(pri), 6)
+        step = max(1, len(rest) // room)
+        idx = sorted(pri + rest[::step][:room])
+    out = []
+    for k in idx:
+        q = queries[k]
+        for roc in OPT_ROC:
+            for tas in OPT_TAS:
+                if roc is None and tas is None:
+                    continue
+                st = AircraftState(q['alt'], q['m'], true_airspeed=tas, rate_of_climb=roc)
+                r = impl_query(model, q, state=st)
+                after = [st.altitude, st.aircraft_mass, st.true_airspeed, st.rate_of_climb]
+                out.append([k, roc, tas, r, None if after == [q['alt'], q['m'], tas, roc] else repr(st)])
+    return out
+
+
 def impl_table(case):
     from AEIC.performance.models import PerformanceModel
     try:
@@ -581,12 +614,13 @@ def impl_table(case):
     except Exception as e:  # noqa: BLE001
         return {'load': classify_exc(e), 'results': []}
     res = [impl_query(model, q) for q in case['queries']]
+    opt = impl_optional(model, case['queries']) if table_is_valid(case['rows']) else []
     # dependence on (altitude, mass, phase) only: a fresh instance, other order
     model2 = PerformanceModel.from_data(model_data(case))
     again = {}
     for k in list(range(len(case['queries'])))[::-7]:
         again[k] = impl_query(model2, case['queries'][k])
-    return {'load': None, 'results': res, 'again': again,
+    return {'load': None, 'results': res, 'again': again, 'optional': opt,
             'min_mass': float(min(model.performance_table.mass)), 'max_mass': float(max(model.performance_table.mass)),
             'maximum_mass': float(model.maximum_mass)}
 
@@ -959,6 +993,26 @@ def check_tables(chk: Check, cases, sw, units: Units):
                         chk.fail(f"same (altitude, mass, phase) gave {io['results'][k]} then {r2} on a fresh instance",
                                  {**slim, 'queries': [c['queries'][k]]})
                         failed = True
+                # the values (or the refusal) depend only on altitude, mass and phase: the optional state fields
+                # (true_airspeed, rate_of_climb) are not inputs of a table model, whatever their value or sign
+                seen_opt = set()
+                for k, roc, tas, r2, mutated in io.get('optional', []):
+                    q = c['queries'][k]
+                    chk.count('optional-fields:' + q['p'])
+                    if mutated is not None and (k, 'mut') not in seen_opt:
+                        seen_opt.add((k, 'mut'))
+                        chk.fail(f"evaluate wrote to its argument: AircraftState({q['alt']!r}, {q['m']!r}, "
+                                 f"true_airspeed={tas!r}, rate_of_climb={roc!r}) is now {mutated}",
+                                 {**slim, 'queries': [q], 'optional': [roc, tas]})
+                        failed = True
+                    if r2 != io['results'][k] and (k, 'val') not in seen_opt:
+                        seen_opt.add((k, 'val'))
+                        chk.fail(f"{q['tag']} {q['p']}: altitude {q['alt']!r} m, mass {q['m']!r} gives "
+                                 f"{io['results'][k]} with the optional state fields unset but {r2} with "
+                                 f"rate_of_climb={roc!r}, true_airspeed={tas!r} (same altitude, mass and phase)",
+                                 {**slim, 'queries': [q], 'impl': [io['results'][k]], 'optional': [roc, tas],
+                                  'impl_optional': [r2]})
+                        failed = True
                 allm = sorted({r[1] for r in rows})
                 if (io['min_mass'], io['max_mass'], io['maximum_mass']) != (allm[0], allm[-1], allm[-1]):
                     chk.fail(f"table mass extremes {allm[0]}, {allm[-1]} but model reports {io['min_mass']}, "
@@ -1270,7 +1324,9 @@ def setup(chk: Check):
                 '3 masses, climb with 2, mass-dependent TAS / climb fuel / descent values, no descent, only descent); '
                 '~45-75 queries per table: every kind of node (FL given directly and in metres via FL_TO_METERS), interior, '
                 'cell edges, +-1 ulp probes across grid lines and around the envelope, outside in FL / mass / both, '
-                'symbolic min/max; PTF files in the BADA layout with 2-14 levels, cruise block absent at low levels. '
+                'symbolic min/max; on valid tables up to 24 metre-altitude queries per table (all phases; every out-of-mass, '
+                'out-of-altitude and symbolic-mass query) are repeated with AircraftState.rate_of_climb in {None, 0, 2.5, -4, '
+                '1e-3} x true_airspeed in {None, 200} and must give the same values or the same refusal; PTF files in the BADA layout with 2-14 levels, cruise block absent at low levels. '
                 'non-trivial = valid table with a phase of >= 2 levels, or an incomplete grid, or a PTF file with >= 2 levels')
     chk.trusted += ['translator/py2coq.py:NumModule + translator/c06_extract.py (constants, conversion expression)',
                     'harness/c06.py: correspondence, exact-rational oracle, PTF writer and the small independent reader',
